@@ -74,6 +74,44 @@ static bool is_get4(char *buf)
 /* sscanf(buf,"%x",&v) on four hexadecimal digits (C99 7.19.6.2) */
 static void sscanf_x4(char const *buf, unsigned *v) { __CPROVER_assert(ISHEX(buf[0]) && ISHEX(buf[1]) && ISHEX(buf[2]) && ISHEX(buf[3]) && buf[4] == 0, "sscanf %x is given exactly four hexadecimal digits"); *v = (unsigned)(HEXV(buf[0]) << 12 | HEXV(buf[1]) << 8 | HEXV(buf[2]) << 4 | HEXV(buf[3])); }
 '''
+PRE += r'''
+/* ---- parser state machine (parse_stream): tokens come from an oracle, json::value operations are recorders, the std::stack of (state, value*) is an array + depth */
+@@REGION:state_type@@
+#define JSON_MAX_DEPTH 512
+#define PSCAP 600
+state_type g_ps_state[PSCAP]; size_t g_ps_val[PSCAP]; size_t g_pd, g_pd_max; size_t g_left; int g_out_swaps, g_assigns; bool g_dup_seen, g_eof_after_done; size_t g_last_inserted, g_hctr;
+static void pst_init(void) { g_pd = 0; g_pd_max = 0; }
+static bool pst_empty(void) { return g_pd == 0; }
+static size_t pst_size(void) { return g_pd; }
+/* only the bottom entry carries st_done; every other entry carries one of the two "close or comma" states (asserted at push, assumed where the top is read: stack history) */
+static void pst_push(state_type st, size_t v)
+{
+  __CPROVER_assert(g_pd < PSCAP, "model capacity of the parser stack");
+  __CPROVER_assert(g_pd == 0 ? st == st_done : (st == st_object_close_or_comma_expected || st == st_array_close_or_comma_expected), "only the bottom stack entry returns to st_done");
+  g_ps_state[g_pd] = st; g_ps_val[g_pd] = v; g_pd++; if(g_pd > g_pd_max) g_pd_max = g_pd;
+}
+static state_type pst_top_state(void)
+{
+  __CPROVER_assert(g_pd > 0, "stack.top() on a non-empty stack");
+  state_type v = g_ps_state[g_pd - 1];
+  __CPROVER_assume(g_pd == 1 ? v == st_done : (v == st_object_close_or_comma_expected || v == st_array_close_or_comma_expected));
+  return v;
+}
+static size_t pst_top_val(void) { __CPROVER_assert(g_pd > 0, "stack.top() on a non-empty stack"); return g_ps_val[g_pd - 1]; }
+static void pst_pop(void) { __CPROVER_assert(g_pd > 0, "stack.pop() on a non-empty stack"); g_pd--; }
+/* tokenizer oracle: any token; consumes at least one byte unless the input is exhausted (then only tock_eof) */
+static int tk_next(void)
+{
+  if(g_left == 0) return tock_eof;
+  size_t k; __CPROVER_assume(k >= 1 && k <= g_left); g_left -= k;
+  int t; __CPROVER_assume(t == '[' || t == '{' || t == ':' || t == ',' || t == '}' || t == ']' || (t >= tock_eof && t <= tock_null)); return t;
+}
+static void val_assign(size_t v) { if(g_assigns < 1000000) g_assigns++; }
+/* obj.insert(make_pair(key,value())): fails when the key is already present */
+static bool obj_insert(size_t obj) { int dup; if(dup) { g_dup_seen = 1; return 0; } if(g_hctr < 4000000) g_hctr++; g_last_inserted = g_hctr; return 1; }
+static void arr_push(size_t ar) { if(g_hctr < 4000000) g_hctr++; g_last_inserted = g_hctr; }
+static void out_swap_rec(size_t result) { g_out_swaps++; }
+'''
 functions = [
     dict(cname='json_generic_append', file=J, locate=lit('void generic_append(char const *begin,char const *end,Appender &a)'), sig='void json_generic_append(char const *begin, char const *end)',
          hoist=[r'static char const tohex\[\]="[^"]*";'],
@@ -156,6 +194,32 @@ __CPROVER_ensures(__CPROVER_return_value == tock_eof ==> g_is_pos == g_is_n)
 __CPROVER_ensures(__CPROVER_return_value == '[' || __CPROVER_return_value == '{' || __CPROVER_return_value == ':' || __CPROVER_return_value == ',' || __CPROVER_return_value == '}' || __CPROVER_return_value == ']' ||
                   (__CPROVER_return_value >= tock_eof && __CPROVER_return_value <= tock_null))
 '''),
+    dict(cname='json_parse_stream', file=J, locate=lit('bool parse_stream(std::istream &in,value &out,bool force_eof,int &error_at_line)') + r'(?=\s*\{)', sig='bool json_parse_stream(bool force_eof, int *error_at_line)', refs=['error_at_line'],
+         rewrites=[(r'tockenizer tock\(in\);', '', 1), (r'value result;', 'size_t result = 1;', 1), (r'std::string key;', '', 1), (r'key=tock\.str;', '', 1),
+                   (r'std::stack<std::pair<state_type,value \*> > stack;', 'pst_init();', 1), (r'stack\.push\(std::make_pair\((\w+),&(\w+)\)\)', r'pst_push(\1, \2)', 0),
+                   (r'stack\.empty\(\)', 'pst_empty()', 1), (r'stack\.size\(\)', 'pst_size()', 1), (r'stack\.top\(\)\.first', 'pst_top_state()', 1), (r'stack\.pop\(\)', 'pst_pop()', 1),
+                   (r'\*stack\.top\(\)\.second=[^;]+;', 'val_assign(pst_top_val());', 1),
+                   (r'json::object &obj = stack\.top\(\)\.second->object\(\);', 'size_t obj = pst_top_val();', 1),
+                   (r'std::pair<json::object::iterator,bool> res=\s*obj\.insert\(std::make_pair\(key,json::value\(\)\)\);', 'bool res_second = obj_insert(obj);', 0), (r'res\.second', 'res_second', 1),
+                   (r'json::value &val=res\.first->second;', 'size_t val = g_last_inserted;', 1), (r'json::array &ar = stack\.top\(\)\.second->array\(\);', 'size_t ar = pst_top_val();', 1),
+                   (r'ar\.push_back\(json::value\(\)\);', 'arr_push(ar);', 1), (r'json::value &val=ar\.back\(\);', 'size_t val = g_last_inserted;', 1), (r'\bval=[^;]+;', 'val_assign(val);', 1),
+                   (r'tock\.next\(\)', 'tk_next()', 2), (r'tock\.line', 'g_line', 2), (r'out\.swap\(result\);', 'out_swap_rec(result);', 0), (r'\bjson_max_depth\b', 'JSON_MAX_DEPTH', 1)],
+         loops={0: r'''
+__CPROVER_assigns(state, g_pd, g_pd_max, g_left, g_assigns, g_dup_seen, g_last_inserted, g_hctr, __CPROVER_object_whole(g_ps_state), __CPROVER_object_whole(g_ps_val))
+/* the stack is empty exactly when the document is complete; its depth never exceeds the documented bound by more than the entry being opened; a duplicate key ends in the error state */
+__CPROVER_loop_invariant(g_left <= BUF_CAP && (state == st_done) == (g_pd == 0) && g_pd <= JSON_MAX_DEPTH + 1 && g_pd_max <= JSON_MAX_DEPTH + 1 && g_pd <= g_pd_max && (g_pd_max == JSON_MAX_DEPTH + 1 ==> g_pd == JSON_MAX_DEPTH + 1) && g_out_swaps == 0 && (g_dup_seen ==> state == st_error) &&
+      (state == st_object_or_array_or_value_expected || state == st_object_key_or_close_expected || state == st_object_colon_expected || state == st_object_value_expected || state == st_object_close_or_comma_expected ||
+       state == st_array_value_or_close_expected || state == st_array_close_or_comma_expected || state == st_error || state == st_done))
+__CPROVER_decreases(2 * g_left + ((state != st_error && state != st_done) ? 1 : 0))'''},
+         contract=r'''
+__CPROVER_requires(__CPROVER_rw_ok(error_at_line, sizeof(*error_at_line)) && g_left <= BUF_CAP && g_out_swaps == 0 && !g_dup_seen && g_hctr == 1 && g_assigns == 0)
+__CPROVER_assigns(*error_at_line, g_pd, g_pd_max, g_left, g_assigns, g_dup_seen, g_last_inserted, g_hctr, g_out_swaps, __CPROVER_object_whole(g_ps_state), __CPROVER_object_whole(g_ps_val))
+/* C11: the parser terminates (decreases clause); the target is replaced exactly when the parse succeeds, so a failed parse leaves it untouched; a duplicate key is a failure; nesting stays within the bound */
+__CPROVER_ensures(g_out_swaps == (__CPROVER_return_value ? 1 : 0))
+__CPROVER_ensures(g_dup_seen ==> !__CPROVER_return_value)
+__CPROVER_ensures(g_pd_max <= JSON_MAX_DEPTH + 1 && (__CPROVER_return_value ==> (g_pd == 0 && g_pd_max <= JSON_MAX_DEPTH)))
+__CPROVER_ensures(!__CPROVER_return_value ==> *error_at_line == g_line)
+'''),
 ]
 
 jobs = [
@@ -179,10 +243,13 @@ jobs = [
     SYM_BUF(char, b, n, BUF_CAP); g_is_p = b; g_is_n = n; size_t pos, k2; __CPROVER_assume(pos <= n); g_is_pos = pos; g_k2 = k2;
 
     int ln, r1, r2; g_line = ln; g_ps_calls = 0; g_pn_calls = 0; g_ps_res = r1 != 0; g_pn_res = r2 != 0; json_next(); VERIF_REACH;'''),
+    dict(name='json_parse_stream', props=P, enforce='json_parse_stream', timeout=600, harness=r'''
+    size_t left; __CPROVER_assume(left <= BUF_CAP); g_left = left; g_out_swaps = 0; g_dup_seen = 0; g_hctr = 1; g_assigns = 0; int ln, fe, el; g_line = ln;
+    json_parse_stream(fe != 0, &el); VERIF_REACH;'''),
 ]
 
 UNIT = dict(
-    name='jsonw', pre=PRE, functions=functions, jobs=jobs,
+    name='jsonw', regions=[dict(name='state_type', file=J, start=r'typedef enum \{\s*st_init', end=r'\} state_type;')], pre=PRE, functions=functions, jobs=jobs,
     trusted=['jsonw: parse_string: the stream buffer is a ghost input string, `str` a checked sink, read_4_digits / utf8::validate / utf16 helpers are stubs (utf8::validate is proved in unit utf8) (R10)',
              'jsonw: the Appender template parameter (string_append / stream_append) is three stubs that assert what each append may contain (R2/R7/R10)'],
     not_covered={'C11': ['the rest of the parser (tokenizer dispatch, nesting bound, unique keys), number printing/parsing, tree construction, typed extraction, locale independence: '
